@@ -262,3 +262,45 @@ Section ExprSound.
     - (* opaque *) exact H.
   Qed.
 End ExprSound.
+
+(* ------------------------------------------------------------------ facts about the dumped tables *)
+From CyVerif Require Import Gen.Gen_Infer.
+
+(* operator typings of the running compiler under which a Python value is NOT guaranteed to be held
+   unchanged (beyond the C-integer-typed results, which are all excluded): bool objects through
+   + * % and unary - ~ +, bint through unary - ~ +, and C long/int/double/float-object mixes in
+   conditional and and/or expressions *)
+Definition is_cint_result_bin (e : nat * nat * nat) : bool :=
+  let '(o, t1, t2) := e in
+  is_cintw (tb2 (tb_bin gen_tables) o (ty_of_idx t1) (ty_of_idx t2)).
+Definition bad_bin_kinds : list (nat * nat * nat) := filter (fun e => negb (is_cint_result_bin e)) (bad_bin gen_tables).
+
+Definition eq3 (a b : nat * nat * nat) : bool :=
+  let '(a1, a2, a3) := a in let '(b1, b2, b3) := b in Nat.eqb a1 b1 && Nat.eqb a2 b2 && Nat.eqb a3 b3.
+Definition eq2 (a b : nat * nat) : bool :=
+  let '(a1, a2) := a in let '(b1, b2) := b in Nat.eqb a1 b1 && Nat.eqb a2 b2.
+Definition subset {A} (eq : A -> A -> bool) (l1 l2 : list A) : bool :=
+  forallb (fun x => existsb (eq x) l2) l1.
+(* stated as inclusions so that they survive repairs that shrink the sets *)
+Definition known_bad_bin : list (nat * nat * nat) :=
+  [(0, 3, 3); (2, 3, 3); (2, 3, 6); (2, 3, 7); (2, 3, 9); (2, 6, 3); (2, 7, 3); (2, 9, 3); (4, 3, 3);
+   (8, 7, 9); (9, 7, 9); (10, 7, 9)]%nat.
+Definition known_bad_un : list (nat * nat) :=
+  [(0, 3); (0, 6); (0, 7); (0, 9); (1, 3); (1, 6); (1, 7); (1, 9); (3, 3); (3, 6); (3, 7); (3, 9)]%nat.
+Definition known_bad_cond : list (nat * nat) := [(2, 8); (3, 9); (6, 8); (7, 8); (8, 2); (8, 6); (8, 7); (9, 3)]%nat.
+Lemma gen_bad_bin_kinds : subset eq3 bad_bin_kinds known_bad_bin = true.
+Proof. vm_compute. reflexivity. Qed.
+Lemma gen_bad_un : subset eq2 (bad_un gen_tables) known_bad_un = true.
+Proof. vm_compute. reflexivity. Qed.
+Lemma gen_bad_cond : subset eq2 (bad_cond gen_tables) known_bad_cond = true.
+Proof. vm_compute. reflexivity. Qed.
+Lemma gen_bad_bool : subset eq2 (bad_bool gen_tables) known_bad_cond = true.
+Proof. vm_compute. reflexivity. Qed.
+
+(* refutations on the faithful tables: unary minus / invert of a bint is typed bint; a conditional
+   expression over a C long and a C double is typed double *)
+Lemma neg_bint_refuted : exists v1 v, ty_ok TCBint v1 = true /\ pyun Neg v1 = Some v /\
+  ty_ok (un_ty gen_tables Neg TCBint) v = false.
+Proof. exists (VBool true), (VInt (-1)). vm_compute. auto. Qed.
+Lemma cond_long_double_refuted : exists v, ty_ok TCLong v = true /\ ty_ok (cond_ty gen_tables TCLong TCDouble) v = false.
+Proof. exists (VInt 3). vm_compute. auto. Qed.
